@@ -34,6 +34,7 @@ def mk(spec, ids):
 
 
 # ops ('RESET',): the connection is reset (reads fail at once, writes fail)
+# ops ('DEAF',): the peer stops receiving - the next write of the provider fails (EPIPE), reads are unaffected
 
 
 ACCEPTOR = {
@@ -56,6 +57,11 @@ ACCEPTOR = {
     'early-data': [('P', [('RQ',), ('MSG', 1, 0, [1])]), ('FIN',)],
     'abort-close': [('P', [('RQ',)]), ('U', 'AC', ()), ('P', [('MSG', 1, 1, [1, 1]), ('AB', [2, 5])]), ('FIN',)],
     'release-data': [('P', [('RQ',)]), ('U', 'AC', ()), ('U', 'RLRQ', ()), ('P', [('MSG', 1, 1, [2]), ('RLRP',)])],
+    # the peer keeps talking after the PDU that ended the association for the provider (awaiting close, Sta13)
+    'garbage-then-request': [('P', [('UNK',), ('RQ',)]), ('FIN',)],
+    'request-garbage-tail': [('P', [('RQ',), ('UNK',), ('UNK0',)]), ('FIN',)],
+    'local-abort-peer-talks': [('P', [('RQ',)]), ('U', 'AC', ()), ('U', 'AB', (2, 0)), ('P', [('MSG', 1, 0, [1]), ('AB', [0, 0])]), ('FIN',)],
+    'reject-then-request': [('P', [('RQ',)]), ('U', 'RJ', (1, 1, 7)), ('P', [('RQ',), ('UNK0',)]), ('FIN',)],
 }
 
 REQUESTOR = {
@@ -69,6 +75,7 @@ REQUESTOR = {
     'garbage-reply': [('U', 'RQ', ()), ('P', [('UNK0',)]), ('FIN',)],
     'collision': [('U', 'RQ', ()), ('P', [('AC',)]), ('U', 'RLRQ', ()), ('P', [('RLRQ',)]), ('U', 'RLRP', ()), ('P', [('RLRP',)])],
     'response-close': [('U', 'RQ', ()), ('P', [('AC',)]), ('G', 1), ('P', [('MSG', 1, 0, [1]), ('MSG', 1, 0, [1]), ('AB', [0, 0])]), ('FIN',)],
+    'abort-then-peer-talks': [('U', 'RQ', ()), ('P', [('AC',)]), ('U', 'AB', (0, 0)), ('P', [('MSG', 1, 0, [1]), ('UNK0',), ('AB', [2, 0])]), ('FIN',)],
     'find': [('U', 'RQ', ()), ('P', [('AC',)]), ('G', 2), ('P', [('MSG', 1, 1, [1, 1]), ('MSG', 1, 1, [2]), ('MSG', 1, 0, [1])]),
              ('U', 'RLRQ', ()), ('P', [('RLRP',)])],
 }
@@ -234,6 +241,10 @@ def play(script, req, cuts=(), dribble=False, waiting=False, fin_at=None, stop_s
                     out.fin_done = True
                 if not settle():
                     break
+            elif op[0] == 'DEAF':
+                s = run._cur_sock()
+                if s is not None and not s.closed and not s.write_dead and not s.peer_reset:
+                    run.peer_deaf()
             elif op[0] == 'TICK':
                 run.tick(True)
                 if not settle():
